@@ -27,7 +27,7 @@ def project(lines, names=None):
             c = r["cfg"]
             cfg = {"n": c["n"], "kind": c["kind"], "deps": c["deps"], "roots": c["roots"],
                    "watch": c.get("watch", False), "inh": c.get("inh") or [[] for _ in range(c["n"])],
-                   "rec": c.get("rec", []), "slow": c.get("slow", []), "id": c.get("id", "")}
+                   "rec": c.get("rec", []), "slow": c.get("slow", []), "id": c.get("id", ""), "scale": bool(c.get("scale", False))}
             kinds = c["kind"]
             launched, exited, executed, sig = [], [], {}, False
             out.append({"e": "cfg", "cfg": cfg})
@@ -37,6 +37,8 @@ def project(lines, names=None):
             exited.append(num(r["t"]))
         elif ev == "idle":
             executed[num(r["t"])] = r["st"]["executed"]
+        elif ev in ("recv", "send") and cfg and cfg["scale"]:
+            pass        # scale runs: thousands of messages between hundreds of targets; only start/finish/exit are folded
         elif ev == "recv":
             m = r["msg"]
             out.append({"e": "recv", "t": num(r["t"]), "ty": TY[m["type"]], "k": K[m["kind"]],
@@ -118,7 +120,7 @@ def project_d(lines):
     out = []
     for run in runs:
         c = run[0]["cfg"]
-        if len(set(c["roots"])) != len(c["roots"]) or sorted(c["roots"]) != list(c["roots"]):
+        if len(set(c["roots"])) != len(c["roots"]) or sorted(c["roots"]) != list(c["roots"]) or c["n"] > 7 or c.get("scale"):
             continue
         cfg = {"n": c["n"], "kind": c["kind"], "deps": c["deps"], "roots": c["roots"], "watch": c.get("watch", False),
                "inh": c.get("inh") or [[] for _ in range(c["n"])], "rec": c.get("rec", []), "slow": c.get("slow", [])}
